@@ -62,11 +62,11 @@ def run(ctx):
         scratch = os.path.join(ctx.work, "files")
         os.makedirs(scratch, exist_ok=True)
         t1 = os.path.join(ctx.work, "ssrb.ndjson")
-        lib.run_driver(exe, ["ssrb", t1, 60 if q else 140, 0 if q else 1, scratch], env=env, timeout=1200)
+        lib.run_driver(exe, ["ssrb", t1, 60 if q else 220, 0 if q else 1, scratch], env=env, timeout=1200)
         t2 = os.path.join(ctx.work, "zoom.ndjson")
-        lib.run_driver(exe, ["zoom", t2, 160 if q else 2000, 0 if q else 1], env=env, timeout=1200)
+        lib.run_driver(exe, ["zoom", t2, 160 if q else 3000, 0 if q else 1], env=env, timeout=1200)
         t3 = os.path.join(ctx.work, "zoomr.ndjson")
-        lib.run_driver(exe, ["zoomr", t3, 160 if q else 2000, 0 if q else 1], env=env, timeout=1200)
+        lib.run_driver(exe, ["zoomr", t3, 160 if q else 3000, 0 if q else 1], env=env, timeout=1200)
         traces = [("Trace_Rebin", t1, "Config"), ("Trace_Zoom", t2, "ZIn"), ("Trace_Zoom", t3, "RIn")]
     # 3. validate (chunks in parallel)
     work = []
